@@ -347,7 +347,7 @@ Proof.
 Qed.
 
 (* ------------------------------------------------------------------ conditions *)
-Definition cpath (c : tcond) : path := match c with TCmp _ _ p _ => p | THas p _ => p end.
+Definition cpath (c : tcond) : path := match c with TCmp _ _ p _ => p | THas p _ => p | TVar _ p _ => p end.
 Definition is_ex (c : tcond) : bool := match c with TCmp true _ _ _ => true | _ => false end.
 
 Lemma flats_in r : forall q, under (PFlat r) q -> In (PFlat r) (flats q).
@@ -367,15 +367,16 @@ Section Conds.
   Lemma eval_factor1 c q e e1 v : under q (cpath c) -> (forall x, under q x -> lookup e x = None) ->
     eval_path q e = [(e1, v)] -> eval c e = eval c e1.
   Proof.
-    intros Hu Hfr H1. destruct c as [ex k p lit|p T]; simpl in *; rewrite (path_factor M D q p e Hu Hfr), H1; simpl;
-      rewrite app_nil_r; reflexivity.
+    intros Hu Hfr H1. destruct c as [ex k p lit|p T|k p lit]; simpl in *; [| |reflexivity];
+      rewrite (path_factor M D q p e Hu Hfr), H1; simpl; rewrite app_nil_r; reflexivity.
   Qed.
   Lemma eval_factor c q e : is_ex c = false -> under q (cpath c) -> (forall x, under q x -> lookup e x = None) ->
     eval c e = flat_map (fun r : env * val => eval c (fst r)) (eval_path q e).
   Proof.
-    intros Hx Hu Hfr. destruct c as [ex k p lit|p T]; simpl in *.
+    intros Hx Hu Hfr. destruct c as [ex k p lit|p T|k p lit]; simpl in *.
     - destruct ex; [discriminate|]. rewrite (path_factor M D q p e Hu Hfr). rewrite map_flat_map. reflexivity.
     - rewrite (path_factor M D q p e Hu Hfr). rewrite map_flat_map. reflexivity.
+    - induction (eval_path q e); simpl; auto.
   Qed.
   Lemma eval_all_factor1 c cs q e e1 v : under q (cpath c) -> (forall x, under q x -> lookup e x = None) ->
     eval_path q e = [(e1, v)] -> eval_all (c :: cs) e = eval_all (c :: cs) e1.
@@ -390,7 +391,7 @@ Section Conds.
     forall e', In e' (eval_all (c :: cs) e) <-> exists r, In r (eval_path q e) /\ In e' (eval_all (c :: cs) (fst r)).
   Proof.
     intros Hu Hfr Hex e'. destruct (is_ex c) eqn:Hx.
-    - destruct c as [[|] k pc v|]; try discriminate. destruct (Hex eq_refl) as [Hq Hinj]. simpl in Hu, Hq.
+    - destruct c as [[|] k pc v| |]; try discriminate. destruct (Hex eq_refl) as [Hq Hinj]. simpl in Hu, Hq.
       assert (Hscan : forall e1, In (e1, false) (eval (TCmp true k pc v) e) <->
                 exists r, In r (eval_path q e) /\ In (e1, false) (eval (TCmp true k pc v) (fst r))).
       { intros e1. unfold Match.eval. rewrite (path_factor M D q pc e Hu Hfr), map_flat_map.
@@ -416,23 +417,37 @@ Lemma tr_pat_eq C oc p a t l :
 Proof. reflexivity. Qed.
 Lemma tr_alist_cons C oc p a c rest : tr_alist C oc p (ACons a c rest) = tr_apat C oc p a c ++ tr_alist C oc p rest.
 Proof. reflexivity. Qed.
-Lemma fok_pat_eq C objcls oc p a t l :
-  fok_pat C objcls oc p a (Pat t l) =
+Lemma fok_pat_eq C objcls st oc p a t l :
+  fok_pat C objcls st oc p a (Pat t l) =
   let d := dflt (f_type C oc a) in
   let pv := nested_var C oc p a t (negb (is_anil l)) in
   is_some (f_type C oc a) && objcls d
-  && (if f_iter C oc a then type_filter C oc a t || head_ok (tr_alist C d pv l) else true)
-  && fok_alist C objcls d pv l.
+  && (if f_iter C oc a then type_filter C oc a t || negb st || head_ok (tr_alist C d pv l) else true)
+  && fok_alist C objcls st d pv l.
 Proof. reflexivity. Qed.
-Lemma fok_alist_cons C objcls oc p a c rest :
-  fok_alist C objcls oc p (ACons a c rest) =
-  negb (nmemb a (names rest)) && fok_apat C objcls oc p a c && fok_alist C objcls oc p rest.
+Lemma fok_alist_cons C objcls st oc p a c rest :
+  fok_alist C objcls st oc p (ACons a c rest) =
+  negb (nmemb a (names rest)) && fok_apat C objcls st oc p a c && fok_alist C objcls st oc p rest.
 Proof. reflexivity. Qed.
 Lemma matches_eq sub M t l o : matches sub M (Pat t l) o = type_ok sub M t o && matches_attrs sub M l o.
 Proof. reflexivity. Qed.
 Lemma matches_attr_coll sub M q xs : matches_attr sub M (PMatch q) (VLO xs) = existsb (matches sub M q) xs.
 Proof. reflexivity. Qed.
 Lemma matches_attr_obj sub M q o' : matches_attr sub M (PMatch q) (VO o') = matches sub M q o'.
+Proof. reflexivity. Qed.
+Lemma lax_alist_cons C M oc p a c rest o :
+  lax_alist C M oc p (ACons a c rest) o = lax_apat C M oc p a c (attr (mw M) o a) && lax_alist C M oc p rest o.
+Proof. reflexivity. Qed.
+Lemma lax_match_obj C M oc p a t l o' :
+  lax_apat C M oc p a (PMatch (Pat t l)) (VO o') =
+  type_ok (sub C) M t o' && lax_alist C M (dflt (f_type C oc a)) (nested_var C oc p a t (negb (is_anil l))) l o'.
+Proof. reflexivity. Qed.
+Lemma lax_match_coll C M oc p a t l xs :
+  lax_apat C M oc p a (PMatch (Pat t l)) (VLO xs) =
+  let d := dflt (f_type C oc a) in
+  let pv := nested_var C oc p a t (negb (is_anil l)) in
+  if f_iter C oc a && negb (type_filter C oc a t) && cnil (tr_alist C d pv l) then true
+  else existsb (fun x => type_ok (sub C) M t x && lax_alist C M d pv l x) xs.
 Proof. reflexivity. Qed.
 Lemma matches_attrs_cons sub M a c rest o :
   matches_attrs sub M (ACons a c rest) o = matches_attr sub M c (attr (mw M) o a) && matches_attrs sub M rest o.
@@ -443,6 +458,8 @@ Section TrUnder.
   Variable C : cmodel.
   Lemma infer_under ai vi im un ex pa v : under pa (cpath (infer ai vi im un ex pa v)).
   Proof. unfold infer. destruct (infer_kind ai vi im un); cbn [cpath]; auto using under_refl, under_flat. Qed.
+  Lemma infer_var_under ai vi pa v : under pa (cpath (infer_var ai vi pa v)).
+  Proof. unfold infer_var. destruct (infer_kind ai vi false false); cbn [cpath]; auto using under_refl, under_flat. Qed.
   Lemma nested_var_under oc p a t kw : under (PAttr p a) (nested_var C oc p a t kw).
   Proof. unfold nested_var. destruct (resolve_flatten _ _ _); [apply under_flat|apply under_refl]. Qed.
   Lemma nested_filter_under oc p a t kw c : In c (nested_filter C oc p a t kw) -> under (PAttr p a) (cpath c).
@@ -470,6 +487,8 @@ Section TrUnder.
     - intros q IH oc p a c. simpl. apply IH.
     - intros v oc p a c. simpl. apply tr_vals_under.
     - intros v oc p a c. simpl. apply tr_vals_under.
+    - intros v oc p a c. simpl. intros [<-|[]]. apply infer_var_under.
+    - intros c' IH oc p a c. simpl. apply IH.
   Qed.
   Lemma tr_alist_under_attr l : forall oc p c, In c (tr_alist C oc p l) -> exists a, under (PAttr p a) (cpath c).
   Proof.
@@ -577,22 +596,22 @@ Section Main.
     (forall e', In e' (eval_all cs e) -> good e' /\ ext e' e /\ frame q e e') /\ (eval_all cs e <> [] <-> b = true).
   Definition A_stmt (l : alist) : Prop := forall oc p e o,
     good e -> lookup e p = Some (VO o) -> inst o oc -> (forall a, In a (names l) -> fresh e (PAttr p a)) ->
-    fok_alist C objcls oc p l = true ->
+    fok_alist C objcls false oc p l = true ->
     (forall e', In e' (eval_all (tr_alist C oc p l) e) ->
        good e' /\ ext e' e /\
        (forall x, lookup e x = None -> lookup e' x <> None -> exists a, In a (names l) /\ under (PAttr p a) x))
-    /\ (eval_all (tr_alist C oc p l) e <> [] <-> matches_attrs (sub C) M l o = true).
+    /\ (eval_all (tr_alist C oc p l) e <> [] <-> lax_alist C M oc p l o = true).
   Definition C_stmt (c : apat) : Prop := forall oc p a e o,
     good e -> lookup e p = Some (VO o) -> inst o oc -> fresh e (PAttr p a) ->
-    fok_apat C objcls oc p a c = true ->
-    concl (PAttr p a) (tr_apat C oc p a c) e (matches_attr (sub C) M c (attr W o a)).
+    fok_apat C objcls false oc p a c = true ->
+    concl (PAttr p a) (tr_apat C oc p a c) e (lax_apat C M oc p a c (attr W o a)).
   Definition P_stmt (q : pat) : Prop := C_stmt (PMatch q).
 
   (* running the nested keyword list from bindings in which the nested variable pv is bound *)
   Lemma nested_run l' : A_stmt l' -> forall d p a pv e ein o',
     under (PAttr p a) pv -> good ein -> ext ein e -> frame (PAttr p a) e ein -> lookup ein pv = Some (VO o') ->
-    inst o' d -> (forall a', fresh ein (PAttr pv a')) -> fok_alist C objcls d pv l' = true ->
-    concl (PAttr p a) (tr_alist C d pv l') ein (matches_attrs (sub C) M l' o') /\
+    inst o' d -> (forall a', fresh ein (PAttr pv a')) -> fok_alist C objcls false d pv l' = true ->
+    concl (PAttr p a) (tr_alist C d pv l') ein (lax_alist C M d pv l' o') /\
     (forall e', In e' (eval_all (tr_alist C d pv l') ein) -> ext e' e /\ frame (PAttr p a) e e').
   Proof.
     intros IH d p a pv e ein o' Hu Hg Hx Hfr Hl Hi Hfresh Hok.
@@ -690,7 +709,7 @@ Section Main.
     tr_apat C oc p a (PLit v) = [infer (f_iter C oc a) (is_coll v) false false false (PAttr p a) v].
   Proof. reflexivity. Qed.
   Lemma fok_apat_lit oc p a v :
-    fok_apat C objcls oc p a (PLit v) = is_some (f_type C oc a) && (f_iter C oc a || negb (is_coll v)).
+    fok_apat C objcls false oc p a (PLit v) = is_some (f_type C oc a) && (f_iter C oc a || negb (is_coll v)).
   Proof. reflexivity. Qed.
 
   Lemma scalar_not_coll o oc a d : inst o oc -> f_type C oc a = Some d -> f_iter C oc a = false -> is_coll (attr W o a) = false.
@@ -706,7 +725,7 @@ Section Main.
   Proof.
     intros oc p a e o Hg Hp Hi Hf Hok. rewrite fok_apat_lit in Hok. apply andb_true_iff in Hok. destruct Hok as [Hty Hsh].
     destruct (f_type C oc a) as [d|] eqn:Hd; [|discriminate].
-    rewrite tr_apat_lit. change (matches_attr (sub C) M (PLit v) (attr W o a)) with (lit_ok M (attr W o a) v).
+    rewrite tr_apat_lit. change (lax_apat C M oc p a (PLit v) (attr W o a)) with (lit_ok M (attr W o a) v).
     unfold infer, infer_kind, infer_exists.
     destruct (f_iter C oc a) eqn:Hit; destruct (is_coll v) eqn:Hcv; simpl in Hsh; try discriminate; cbn.
     - destruct (coll_is_list o oc a d Hi Hd Hit) as [xs [Hav _]].
@@ -734,11 +753,11 @@ Section Main.
   Lemma C_any v : C_stmt (PAny v).
   Proof.
     intros oc p a e o Hg Hp Hi Hf Hok.
-    change (fok_apat C objcls oc p a (PAny v)) with (is_some (f_type C oc a) && is_coll v) in Hok.
+    change (fok_apat C objcls false oc p a (PAny v)) with (is_some (f_type C oc a) && is_coll v) in Hok.
     apply andb_true_iff in Hok. destruct Hok as [Hty Hcv].
     destruct (f_type C oc a) as [d|] eqn:Hd; [|discriminate].
     rewrite tr_apat_any, tr_vals_literal.
-    change (matches_attr (sub C) M (PAny v) (attr W o a)) with (common M (attr W o a) v).
+    change (lax_apat C M oc p a (PAny v) (attr W o a)) with (common M (attr W o a) v).
     unfold infer, infer_kind, infer_exists. destruct (f_iter C oc a) eqn:Hit; cbn.
     - destruct (coll_is_list o oc a d Hi Hd Hit) as [xs [Hav _]].
       replace (common M (attr W o a) v) with (existsb (fun x => vmem M x (elems v)) (elems (attr W o a))).
@@ -752,13 +771,13 @@ Section Main.
   Lemma C_all v : C_stmt (PAll v).
   Proof.
     intros oc p a e o Hg Hp Hi Hf Hok.
-    change (fok_apat C objcls oc p a (PAll v))
+    change (fok_apat C objcls false oc p a (PAll v))
       with (is_some (f_type C oc a) && f_iter C oc a && match v with VLO _ => true | _ => false end) in Hok.
     apply andb_true_iff in Hok. destruct Hok as [Hok Hv].
     apply andb_true_iff in Hok. destruct Hok as [Hty Hit].
     destruct (f_type C oc a) as [d|] eqn:Hd; [|discriminate]. destruct v as [z|z|m|m]; try discriminate.
     rewrite tr_apat_all, tr_vals_literal.
-    change (matches_attr (sub C) M (PAll (VLO m)) (attr W o a)) with (same_set M (attr W o a) (VLO m)).
+    change (lax_apat C M oc p a (PAll (VLO m)) (attr W o a)) with (same_set M (attr W o a) (VLO m)).
     unfold infer, infer_kind, infer_exists. rewrite Hit. cbn.
     destruct (coll_is_list o oc a d Hi Hd Hit) as [xs [Hav _]].
     replace (same_set M (attr W o a) (VLO m)) with (cmp M OEq (attr W o a) (VLO m)).
@@ -793,12 +812,54 @@ Section Main.
     apply under_size in Hx. simpl in Hx. lia.
   Qed.
 
+  Lemma concl_nil q e : good e -> concl q [] e true.
+  Proof.
+    intros Hg. split.
+    - intros e' [<-|[]]. split; auto. split; [apply ext_refl|]. intros x H1 H2. congruence.
+    - simpl. split; auto. intros _. discriminate.
+  Qed.
+
+  (* the nested keyword list run from the bindings of one member of a flattened collection / of a one-to-one value *)
+  Lemma nest_flat l' : A_stmt l' -> forall d p a e o xs ox,
+    good e -> lookup e p = Some (VO o) -> fresh e (PAttr p a) -> attr W o a = VLO xs -> In ox xs -> inst ox d ->
+    fok_alist C objcls false d (PFlat (PAttr p a)) l' = true ->
+    concl (PAttr p a) (tr_alist C d (PFlat (PAttr p a)) l') ((PFlat (PAttr p a), VO ox) :: (PAttr p a, attr W o a) :: e)
+          (lax_alist C M d (PFlat (PAttr p a)) l' ox) /\
+    (forall e', In e' (eval_all (tr_alist C d (PFlat (PAttr p a)) l') ((PFlat (PAttr p a), VO ox) :: (PAttr p a, attr W o a) :: e)) ->
+                ext e' e /\ frame (PAttr p a) e e').
+  Proof.
+    intros IH d p a e o xs ox Hg Hp Hf Hav Hox Hi Hok.
+    assert (Hin : In (VO ox) (elems (attr W o a))) by (rewrite Hav; simpl; apply in_map; auto).
+    destruct (bind_flat e p a o (VO ox) Hg Hp Hf Hin) as [Hg2 [Hx2 [Hfr2 Hl2]]].
+    apply (nested_run l' IH d p a (PFlat (PAttr p a)) e); auto.
+    - apply under_flat.
+    - intros a'. apply (fresh_nested e _ (PAttr p a)); auto; [apply under_flat|].
+      intros x H1 H2. destruct (path_eq_dec (PFlat (PAttr p a)) x) as [<-|N1]; [simpl; lia|].
+      destruct (path_eq_dec (PAttr p a) x) as [<-|N2]; [simpl; lia|].
+      rewrite !lookup_cons_ne in H2 by auto. congruence.
+  Qed.
+  Lemma nest_attr l' : A_stmt l' -> forall d p a e o o',
+    good e -> lookup e p = Some (VO o) -> fresh e (PAttr p a) -> attr W o a = VO o' -> inst o' d ->
+    fok_alist C objcls false d (PAttr p a) l' = true ->
+    concl (PAttr p a) (tr_alist C d (PAttr p a) l') ((PAttr p a, attr W o a) :: e) (lax_alist C M d (PAttr p a) l' o') /\
+    (forall e', In e' (eval_all (tr_alist C d (PAttr p a) l') ((PAttr p a, attr W o a) :: e)) -> ext e' e /\ frame (PAttr p a) e e').
+  Proof.
+    intros IH d p a e o o' Hg Hp Hf Hav Hi Hok.
+    destruct (bind_attr e p a o Hg Hp Hf) as [Hev [Hg1 [Hx1 [Hfr1 Hl1]]]].
+    apply (nested_run l' IH d p a (PAttr p a) e); auto.
+    - apply under_refl.
+    - rewrite Hl1, Hav. reflexivity.
+    - intros a'. apply (fresh_nested e _ (PAttr p a)); auto; [apply under_refl|].
+      intros x H1 H2. destruct (path_eq_dec (PAttr p a) x) as [<-|N2]; [lia|].
+      rewrite lookup_cons_ne in H2 by auto. congruence.
+  Qed.
+
   Lemma P_case t l' : A_stmt l' -> P_stmt (Pat t l').
   Proof.
     intros IH oc p a e o Hg Hp Hi Hf Hok.
-    change (fok_apat C objcls oc p a (PMatch (Pat t l'))) with (fok_pat C objcls oc p a (Pat t l')) in Hok.
+    change (fok_apat C objcls false oc p a (PMatch (Pat t l'))) with (fok_pat C objcls false oc p a (Pat t l')) in Hok.
     rewrite fok_pat_eq in Hok. cbv zeta in Hok.
-    apply andb_true_iff in Hok. destruct Hok as [Hok Hal]. apply andb_true_iff in Hok. destruct Hok as [Hok Hhead].
+    apply andb_true_iff in Hok. destruct Hok as [Hok Hal]. apply andb_true_iff in Hok. destruct Hok as [Hok _].
     apply andb_true_iff in Hok. destruct Hok as [Hty Hobj].
     destruct (f_type C oc a) as [d|] eqn:Hd; [|discriminate]. cbn [dflt] in *.
     rewrite tr_apat_match, tr_pat_eq, Hd. cbn [dflt].
@@ -809,6 +870,8 @@ Section Main.
     - (* collection attribute, type filter *)
       rewrite orb_true_r in *. destruct (filter_has_type oc a t d Htf Hd) as [T ->].
       destruct Ht as [xs [Hav Hxs]].
+      rewrite Hav, lax_match_coll. cbv zeta. unfold nested_var. rewrite Hd, Hit, Htf. unfold resolve_flatten.
+      cbn [dflt andb orb negb]. rewrite orb_true_r.
       set (pf := PFlat (PAttr p a)) in *. set (cs := tr_alist C d pf l') in *.
       assert (Hmem : forall e', In e' (eval_all ([THas pf T] ++ cs) e) <->
                 exists ox, In ox xs /\ sub C (otype M ox) T = true /\
@@ -820,38 +883,30 @@ Section Main.
           destruct H1 as [ox [? [? ->]]]. eauto.
         - intros [ox [? [? ?]]]. eexists. split; [|eassumption].
           apply (trues_map_in (fun ox => (PFlat (PAttr p a), VO ox) :: (PAttr p a, VLO xs) :: e) (fun ox => isinst C M (VO ox) T)). eauto. }
-      assert (Hnest : forall ox, In ox xs ->
-                concl (PAttr p a) cs ((pf, VO ox) :: (PAttr p a, attr W o a) :: e) (matches_attrs (sub C) M l' ox) /\
-                (forall e', In e' (eval_all cs ((pf, VO ox) :: (PAttr p a, attr W o a) :: e)) -> ext e' e /\ frame (PAttr p a) e e')).
-      { intros ox Hox. assert (Hin : In (VO ox) (elems (attr W o a))) by (rewrite Hav; simpl; apply in_map; auto).
-        destruct (bind_flat e p a o (VO ox) Hg Hp Hf Hin) as [Hg2 [Hx2 [Hfr2 Hl2]]].
-        apply (nested_run l' IH d p a pf e); auto.
-        - apply under_flat.
-        - red. auto.
-        - intros a'. apply (fresh_nested e _ (PAttr p a)); auto; [apply under_flat|].
-          intros x H1 H2. destruct (path_eq_dec pf x) as [<-|N1]; [unfold pf; simpl; lia|].
-          destruct (path_eq_dec (PAttr p a) x) as [<-|N2]; [unfold pf; simpl; lia|].
-          rewrite !lookup_cons_ne in H2 by auto. congruence. }
+      pose proof (fun ox Hox => nest_flat l' IH d p a e o xs ox Hg Hp Hf Hav Hox (Hxs ox Hox) Hal) as Hnest. fold pf cs in Hnest.
       apply concl_of_members.
       + intros e' Hin. apply Hmem in Hin. destruct Hin as [ox [Hox [_ Hin]]].
         destruct (Hnest ox Hox) as [[Hc1 _] Hc2]. destruct (Hc1 e' Hin) as [? _]. destruct (Hc2 e' Hin). auto.
-      + rewrite Hav. rewrite matches_attr_coll, existsb_exists. split.
+      + rewrite existsb_exists. split.
         * intros [e' Hin]. apply Hmem in Hin. destruct Hin as [ox [Hox [Hty' Hin]]]. exists ox. split; auto.
-          rewrite matches_eq. cbn [type_ok]. rewrite Hty'. simpl.
+          cbn [type_ok]. rewrite Hty'. simpl.
           destruct (Hnest ox Hox) as [[_ Hc] _]. apply Hc. apply nonempty_ex. eauto.
-        * intros [ox [Hox Hm]]. rewrite matches_eq in Hm. apply andb_true_iff in Hm. destruct Hm as [Hty' Hm].
+        * intros [ox [Hox Hm]]. apply andb_true_iff in Hm. destruct Hm as [Hty' Hm].
           destruct (Hnest ox Hox) as [[_ Hc] _]. apply Hc in Hm. apply nonempty_ex in Hm. destruct Hm as [e' Hin].
           exists e'. apply Hmem. eauto.
-    - (* collection attribute, no type filter: the nested conditions start with a non-existential one *)
-      rewrite orb_false_r in *. simpl in Hhead.
-      destruct l' as [|a0 c0 rest0] eqn:Hl'; [discriminate|]. rewrite <- Hl' in *. cbn [is_anil negb] in *.
+    - (* collection attribute, no type filter *)
+      rewrite orb_false_r in *. destruct Ht as [xs [Hav Hxs]]. simpl app.
+      rewrite Hav, lax_match_coll. cbv zeta. unfold nested_var. rewrite Hd, Hit, Htf. unfold resolve_flatten.
+      cbn [dflt andb orb negb]. rewrite orb_false_r.
+      destruct (tr_alist C d (if negb (is_anil l') then PFlat (PAttr p a) else PAttr p a) l') as [|c cs'] eqn:Hcs.
+      { (* no condition at all: the keyword constrains nothing (finding C11-e) *) cbn [cnil]. apply concl_nil. exact Hg. }
+      cbn [cnil].
+      destruct l' as [|a0 c0 rest0] eqn:Hl'; [simpl in Hcs; discriminate|]. rewrite <- Hl' in *.
       replace (negb (is_anil l')) with true in * by (rewrite Hl'; reflexivity).
-      destruct Ht as [xs [Hav Hxs]].
-      set (pf := PFlat (PAttr p a)) in *. set (cs := tr_alist C d pf l') in *. simpl app.
-      destruct cs as [|c cs'] eqn:Hcs; [discriminate|]. rewrite <- Hcs in *.
-      assert (Hmem : forall e', In e' (eval_all cs e) <->
+      set (pf := PFlat (PAttr p a)) in *. set (cs := tr_alist C d pf l') in *.
+      assert (Hmem : forall e', In e' (eval_all (c :: cs') e) <->
                 exists ox, In ox xs /\ In e' (eval_all cs ((pf, VO ox) :: (PAttr p a, attr W o a) :: e))).
-      { intros e'. rewrite Hcs.
+      { intros e'.
         assert (Hcu : exists ax, under (PAttr pf ax) (cpath c)).
         { apply (tr_alist_under_attr C l' d pf c). fold cs. rewrite Hcs. simpl. auto. }
         destruct Hcu as [ax Hcu].
@@ -866,48 +921,31 @@ Section Main.
         - eapply under_trans; [apply under_attr|exact Hcu].
         - intros x Hx. apply Hf. eapply under_trans; [apply under_flat|exact Hx].
         - intros Hx. split.
-          + destruct c as [ex k pc v|]; [|discriminate]. simpl in Hcu. unfold exists_keys. right. unfold pf. apply flats_in.
+          + destruct c as [ex k pc v| |]; try discriminate. simpl in Hcu. unfold exists_keys. right. unfold pf. apply flats_in.
             destruct pc as [|pc' a1|pc']; simpl qvar.
             * eapply under_trans; [apply under_attr|exact Hcu].
             * eapply under_trans; [apply under_attr|exact Hcu].
             * simpl in Hcu. destruct Hcu as [Hc|Hc]; [discriminate|]. eapply under_trans; [apply under_attr|exact Hc].
           + rewrite Hev2. intros r1 r2 H1 H2 Heq. apply in_map_iff in H1. apply in_map_iff in H2.
             destruct H1 as [x1 [<- _]]. destruct H2 as [x2 [<- _]]. simpl in Heq. subst. reflexivity. }
-      assert (Hnest : forall ox, In ox xs ->
-                concl (PAttr p a) cs ((pf, VO ox) :: (PAttr p a, attr W o a) :: e) (matches_attrs (sub C) M l' ox) /\
-                (forall e', In e' (eval_all cs ((pf, VO ox) :: (PAttr p a, attr W o a) :: e)) -> ext e' e /\ frame (PAttr p a) e e')).
-      { intros ox Hox. assert (Hin : In (VO ox) (elems (attr W o a))) by (rewrite Hav; simpl; apply in_map; auto).
-        destruct (bind_flat e p a o (VO ox) Hg Hp Hf Hin) as [Hg2 [Hx2 [Hfr2 Hl2]]].
-        apply (nested_run l' IH d p a pf e); auto.
-        - apply under_flat.
-        - red. auto.
-        - intros a'. apply (fresh_nested e _ (PAttr p a)); auto; [apply under_flat|].
-          intros x H1 H2. destruct (path_eq_dec pf x) as [<-|N1]; [unfold pf; simpl; lia|].
-          destruct (path_eq_dec (PAttr p a) x) as [<-|N2]; [unfold pf; simpl; lia|].
-          rewrite !lookup_cons_ne in H2 by auto. congruence. }
+      pose proof (fun ox Hox => nest_flat l' IH d p a e o xs ox Hg Hp Hf Hav Hox (Hxs ox Hox) Hal) as Hnest. fold pf cs in Hnest.
       apply concl_of_members.
       + intros e' Hin. apply Hmem in Hin. destruct Hin as [ox [Hox Hin]].
         destruct (Hnest ox Hox) as [[Hc1 _] Hc2]. destruct (Hc1 e' Hin) as [? _]. destruct (Hc2 e' Hin). auto.
-      + rewrite Hav. rewrite matches_attr_coll, existsb_exists. split.
+      + rewrite existsb_exists. split.
         * intros [e' Hin]. apply Hmem in Hin. destruct Hin as [ox [Hox Hin]]. exists ox. split; auto.
-          rewrite matches_eq. rewrite (nofilter_type_ok oc a t d ox Htf Hd) by (apply Hxs; auto). simpl.
+          rewrite (nofilter_type_ok oc a t d ox Htf Hd) by (apply Hxs; auto). simpl.
           destruct (Hnest ox Hox) as [[_ Hc] _]. apply Hc. apply nonempty_ex. eauto.
-        * intros [ox [Hox Hm]]. rewrite matches_eq in Hm. apply andb_true_iff in Hm. destruct Hm as [_ Hm].
+        * intros [ox [Hox Hm]]. apply andb_true_iff in Hm. destruct Hm as [_ Hm].
           destruct (Hnest ox Hox) as [[_ Hc] _]. apply Hc in Hm. apply nonempty_ex in Hm. destruct Hm as [e' Hin].
           exists e'. apply Hmem. eauto.
     - (* one-to-one attribute, type filter *)
       destruct (filter_has_type oc a t d Htf Hd) as [T ->]. rewrite Hobj in Ht. destruct Ht as [o' [Hav Ho']].
+      rewrite Hav, lax_match_obj. unfold nested_var. rewrite Hd, Hit. unfold resolve_flatten. cbn [dflt andb].
       set (cs := tr_alist C d (PAttr p a) l') in *.
       destruct (has_attr T e p a o Hg Hp Hf) as [_ Heq].
-      assert (Hnest : concl (PAttr p a) cs ((PAttr p a, attr W o a) :: e) (matches_attrs (sub C) M l' o') /\
-                (forall e', In e' (eval_all cs ((PAttr p a, attr W o a) :: e)) -> ext e' e /\ frame (PAttr p a) e e')).
-      { apply (nested_run l' IH d p a (PAttr p a) e); auto.
-        - apply under_refl.
-        - rewrite Hl1. rewrite Hav. reflexivity.
-        - intros a'. apply (fresh_nested e _ (PAttr p a)); auto; [apply under_refl|].
-          intros x H1 H2. destruct (path_eq_dec (PAttr p a) x) as [<-|N2]; [lia|].
-          rewrite lookup_cons_ne in H2 by auto. congruence. }
-      rewrite Hav. rewrite matches_attr_obj, matches_eq. cbn [type_ok].
+      pose proof (nest_attr l' IH d p a e o o' Hg Hp Hf Hav Ho' Hal) as Hnest. fold cs in Hnest.
+      cbn [type_ok].
       unfold concl. rewrite eval_all_app, Heq. rewrite Hav. cbn [isinst].
       destruct (sub C (otype M o') T); simpl.
       + rewrite app_nil_r. rewrite Hav in Hnest. destruct Hnest as [[Hc1 Hc2] Hc3]. split; auto.
@@ -915,16 +953,9 @@ Section Main.
       + split; [intros e' []|]. split; [congruence|discriminate].
     - (* one-to-one attribute, no type filter *)
       rewrite Hobj in Ht. destruct Ht as [o' [Hav Ho']]. simpl app.
+      rewrite Hav, lax_match_obj. unfold nested_var. rewrite Hd, Hit. unfold resolve_flatten. cbn [dflt andb].
       set (cs := tr_alist C d (PAttr p a) l') in *.
-      assert (Hnest : concl (PAttr p a) cs ((PAttr p a, attr W o a) :: e) (matches_attrs (sub C) M l' o') /\
-                (forall e', In e' (eval_all cs ((PAttr p a, attr W o a) :: e)) -> ext e' e /\ frame (PAttr p a) e e')).
-      { apply (nested_run l' IH d p a (PAttr p a) e); auto.
-        - apply under_refl.
-        - rewrite Hl1. rewrite Hav. reflexivity.
-        - intros a'. apply (fresh_nested e _ (PAttr p a)); auto; [apply under_refl|].
-          intros x H1 H2. destruct (path_eq_dec (PAttr p a) x) as [<-|N2]; [lia|].
-          rewrite lookup_cons_ne in H2 by auto. congruence. }
-      rewrite Hav. rewrite matches_attr_obj, matches_eq.
+      pose proof (nest_attr l' IH d p a e o o' Hg Hp Hf Hav Ho' Hal) as Hnest. fold cs in Hnest.
       rewrite (nofilter_type_ok oc a t d o' Htf Hd Ho'). simpl.
       destruct Hnest as [[Hc1 Hc2] Hc3].
       destruct cs as [|c cs'] eqn:Hcs.
@@ -955,12 +986,12 @@ Section Main.
       assert (existsb (Nat.eqb a) (names rest) = true) by (apply existsb_exists; exists a; split; auto; apply Nat.eqb_refl).
       congruence. }
     destruct (IHc oc p a e o Hg Hp Hi (Hf a (or_introl eq_refl)) Hokc) as [Hc1 Hc2].
-    rewrite tr_alist_cons, matches_attrs_cons.
+    rewrite tr_alist_cons, lax_alist_cons.
     assert (Hrest : forall e1, In e1 (eval_all (tr_apat C oc p a c) e) ->
               (forall e', In e' (eval_all (tr_alist C oc p rest) e1) ->
                  good e' /\ ext e' e1 /\
                  (forall x, lookup e1 x = None -> lookup e' x <> None -> exists a', In a' (names rest) /\ under (PAttr p a') x))
-              /\ (eval_all (tr_alist C oc p rest) e1 <> [] <-> matches_attrs (sub C) M rest o = true)).
+              /\ (eval_all (tr_alist C oc p rest) e1 <> [] <-> lax_alist C M oc p rest o = true)).
     { intros e1 Hin1. destruct (Hc1 e1 Hin1) as [Hg1 [Hx1 Hfr1]].
       apply IHr; auto.
       intros a' Ha' x Hx. destruct (lookup e1 x) eqn:Hl; auto. exfalso.
@@ -991,12 +1022,17 @@ Section Main.
     - intros q IH. exact IH.
     - apply C_any.
     - apply C_all.
+    - intros v oc p a e o _ _ _ _ Hok. discriminate Hok.
+    - intros c' IH oc p a e o Hg Hp Hi Hf Hok.
+      change (tr_apat C oc p a (PSel c')) with (tr_apat C oc p a c').
+      change (lax_apat C M oc p a (PSel c') (attr W o a)) with (lax_apat C M oc p a c' (attr W o a)).
+      apply IH; auto. simpl in Hok. destruct c'; try discriminate; exact Hok.
   Qed.
 
   (* the conditions built from the keywords of a pattern are satisfiable from the binding root := o exactly when o
      satisfies the keywords *)
-  Theorem match_sat T l o : fok_alist C objcls T PRoot l = true -> In o D -> inst o T ->
-    (eval_all (tr_alist C T PRoot l) [(PRoot, VO o)] <> [] <-> matches_attrs (sub C) M l o = true)
+  Theorem match_sat T l o : fok_alist C objcls false T PRoot l = true -> In o D -> inst o T ->
+    (eval_all (tr_alist C T PRoot l) [(PRoot, VO o)] <> [] <-> lax_alist C M T PRoot l o = true)
     /\ (forall e', In e' (eval_all (tr_alist C T PRoot l) [(PRoot, VO o)]) -> lookup e' PRoot = Some (VO o)).
   Proof.
     intros Hok Hin Hi. destruct all_stmts as [_ [HA _]].
@@ -1006,6 +1042,88 @@ Section Main.
     - intros a _ x Hx. rewrite lookup_cons_ne; auto. intros <-. apply under_size in Hx. simpl in Hx. lia.
     - split; auto. intros e' He. destruct (H1 e' He) as [_ [Hx _]]. apply Hx. apply lookup_cons_eq.
   Qed.
+
+  (* ================================================================== result rows (select) *)
+  (* the value of a node as the bindings determine it: bound, or an attribute of a determined node *)
+  Inductive dval (e : env) : path -> val -> Prop :=
+  | dv_bound p v : lookup e p = Some v -> dval e p v
+  | dv_attr q a u : lookup e (PAttr q a) = None -> dval e q u -> dval e (PAttr q a) (getattr W u a).
+
+  Lemma dval_bound_eq e p v w : lookup e p = Some w -> dval e p v -> v = w.
+  Proof. intros H Hd. destruct Hd; congruence. Qed.
+
+  Lemma dval_ext e e'' p v : good e'' -> ext e'' e -> dval e p v -> dval e'' p v.
+  Proof.
+    intros Hg Hx Hd. induction Hd as [p v H|q a u Hn Hd IH].
+    - apply dv_bound. auto.
+    - destruct (lookup e'' (PAttr q a)) as [w|] eqn:Hl.
+      + apply dv_bound. rewrite Hl. destruct (Hg _ _ Hl) as [u' [Hq ->]].
+        rewrite (dval_bound_eq e'' q u u' Hq IH). reflexivity.
+      + apply dv_attr; auto.
+  Qed.
+
+  Lemma eval_path_good p : forall e e' v, good e -> In (e', v) (eval_path p e) -> good e'.
+  Proof.
+    induction p as [|q IH a|q IH]; intros e e' v Hg; rewrite eval_path_eq; destruct (lookup e _) eqn:Hl.
+    - intros [H|[]]. injection H as <- <-. exact Hg.
+    - rewrite in_map_iff. intros [o [H Ho]]. injection H as <- <-. apply good_cons; auto. simpl. eauto.
+    - intros [H|[]]. injection H as <- <-. exact Hg.
+    - rewrite in_map_iff. intros [[e1 u] [H Hin]]. simpl in H. injection H as <- <-.
+      destruct (eval_path_props M D _ _ _ _ Hin) as [Hq [Hext Hfr]].
+      apply good_cons; [eapply IH; eauto| |simpl; eauto].
+      destruct (lookup e1 (PAttr q a)) eqn:Hl1; auto. exfalso.
+      assert (Hu : under (PAttr q a) q) by (apply Hfr; auto; congruence). apply under_size in Hu. simpl in Hu. lia.
+    - intros [H|[]]. injection H as <- <-. exact Hg.
+    - rewrite in_flat_map. intros [[e1 u] [Hin H]]. rewrite in_map_iff in H. destruct H as [y [H Hy]]. simpl in H.
+      injection H as <- <-. destruct (eval_path_props M D _ _ _ _ Hin) as [Hq [Hext Hfr]].
+      apply good_cons; [eapply IH; eauto| |simpl; eauto].
+      destruct (lookup e1 (PFlat q)) eqn:Hl1; auto. exfalso.
+      assert (Hu : under (PFlat q) q) by (apply Hfr; auto; congruence). apply under_size in Hu. simpl in Hu. lia.
+  Qed.
+
+  Lemma det_eval e p v : good e -> dval e p v -> exists e1, eval_path p e = [(e1, v)] /\ good e1 /\ ext e1 e.
+  Proof.
+    intros Hg Hd. induction Hd as [p v H|q a u Hn Hd IH].
+    - exists e. split; [apply eval_path_bound; auto|]. split; auto. apply ext_refl.
+    - destruct IH as [e0 [He0 [Hg0 Hx0]]].
+      exists ((PAttr q a, getattr W u a) :: e0). rewrite eval_path_eq, Hn, He0. simpl. split; auto.
+      assert (Hin : In (e0, u) (eval_path q e)) by (rewrite He0; simpl; auto).
+      destruct (eval_path_props M D _ _ _ _ Hin) as [Hq [_ Hfr]].
+      assert (Hn0 : lookup e0 (PAttr q a) = None).
+      { destruct (lookup e0 (PAttr q a)) eqn:Hl1; auto. exfalso.
+        assert (Hu : under (PAttr q a) q) by (apply Hfr; auto; congruence). apply under_size in Hu. simpl in Hu. lia. }
+      split; [apply good_cons; auto; simpl; eauto|]. eapply ext_trans; [apply ext_cons; exact Hn0|exact Hx0].
+  Qed.
+
+  (* determined selected expressions give exactly one row, whatever was bound afterwards *)
+  Lemma sel_rows_det sels r e' : Forall2 (dval e') sels r ->
+    forall e'', good e'' -> ext e'' e' -> sel_rows M D sels e'' = [r].
+  Proof.
+    induction 1 as [|s v sels r Hd HF IH]; intros e'' Hg Hx; simpl; auto.
+    destruct (det_eval e'' s v Hg (dval_ext e' e'' s v Hg Hx Hd)) as [e1 [He1 [Hg1 Hx1]]].
+    rewrite He1. simpl. rewrite (IH e1 Hg1 (ext_trans _ _ _ Hx1 Hx)). reflexivity.
+  Qed.
+
+  Lemma dval_attr_of e p a o : good e -> lookup e p = Some (VO o) -> dval e (PAttr p a) (attr W o a).
+  Proof.
+    intros Hg Hp. destruct (lookup e (PAttr p a)) as [w|] eqn:Hl.
+    - apply dv_bound. rewrite Hl. destruct (Hg _ _ Hl) as [u [Hq ->]]. rewrite Hp in Hq. injection Hq as <-. reflexivity.
+    - change (attr W o a) with (getattr W (VO o) a). apply dv_attr; auto. apply dv_bound; auto.
+  Qed.
+
+  Lemma dval_uncons e p a o x v : good e -> lookup e p = Some (VO o) -> lookup e (PAttr p a) = None ->
+    dval ((PAttr p a, attr W o a) :: e) x v -> dval e x v.
+  Proof.
+    intros Hg Hp Hn Hd. induction Hd as [x v H|q a' u Hn' Hd IH].
+    - rewrite lookup_cons in H. destruct (path_eq_dec (PAttr p a) x) as [<-|Hne].
+      + injection H as <-. apply dval_attr_of; auto.
+      + apply dv_bound; auto.
+    - apply dv_attr; auto. rewrite lookup_cons in Hn'. destruct (path_eq_dec (PAttr p a) (PAttr q a')); [discriminate|auto].
+  Qed.
+
+  Definition rowsOK (sels : list path) (cs : list tcond) (e : env) (R : list (list val)) : Prop :=
+    (forall e', In e' (eval_all cs e) -> exists r, In r R /\ Forall2 (dval e') sels r) /\
+    (forall r, In r R -> exists e', In e' (eval_all cs e) /\ Forall2 (dval e') sels r).
 
   (* ---- the root variable: one independent evaluation per domain element ---- *)
   Definition root_env (o : Z) : env := [(PRoot, VO o)].
@@ -1033,8 +1151,8 @@ Section Main.
     unfold select_root. rewrite eval_root_nil, flat_map_map. cbn [snd]. apply flat_map_single.
   Qed.
 
-  Theorem run_conds_exact T l : fok_alist C objcls T PRoot l = true -> (forall o, In o D -> inst o T) ->
-    forall o, In o (run_conds C M D (tr_alist C T PRoot l)) <-> In o D /\ matches_attrs (sub C) M l o = true.
+  Theorem run_conds_exact T l : fok_alist C objcls false T PRoot l = true -> (forall o, In o D -> inst o T) ->
+    forall o, In o (run_conds C M D (tr_alist C T PRoot l)) <-> In o D /\ lax_alist C M T PRoot l o = true.
   Proof.
     intros Hok HD o. unfold run_conds. rewrite true_envs_seq.
     destruct (tr_alist C T PRoot l) as [|c cs] eqn:Hcs.
@@ -1052,13 +1170,170 @@ Section Main.
   Qed.
 End Main.
 
+(* ------------------------------------------------------------------ strict fragment: the relaxed reading is the Spec *)
+Lemma fok_mono C objcls :
+  (forall q oc p a, fok_pat C objcls true oc p a q = true -> fok_pat C objcls false oc p a q = true) /\
+  (forall l oc p, fok_alist C objcls true oc p l = true -> fok_alist C objcls false oc p l = true) /\
+  (forall c oc p a, fok_apat C objcls true oc p a c = true -> fok_apat C objcls false oc p a c = true).
+Proof.
+  apply pat_mutind.
+  - intros t l IH oc p a. rewrite !fok_pat_eq. cbv zeta. intros H.
+    apply andb_true_iff in H. destruct H as [H Hal]. apply andb_true_iff in H. destruct H as [H Hh].
+    rewrite H, (IH _ _ Hal). simpl. destruct (f_iter C oc a); auto. rewrite orb_true_r. reflexivity.
+  - auto.
+  - intros a c IHc rest IHr oc p. rewrite !fok_alist_cons. intros H.
+    apply andb_true_iff in H. destruct H as [H Hr]. apply andb_true_iff in H. destruct H as [Hn Hc].
+    rewrite Hn, (IHc _ _ _ Hc), (IHr _ _ Hr). reflexivity.
+  - auto.
+  - intros q IH oc p a H. apply IH. exact H.
+  - auto.
+  - auto.
+  - auto.
+  - intros c IH oc p a H. specialize (IH oc p a). destruct c; simpl in *; try discriminate; auto.
+Qed.
+
+Lemma lax_strict C objcls M :
+  (forall q oc p a v, fok_pat C objcls true oc p a q = true -> lax_pat C M oc p a q v = matches_attr (sub C) M (PMatch q) v) /\
+  (forall l oc p o, fok_alist C objcls true oc p l = true -> lax_alist C M oc p l o = matches_attrs (sub C) M l o) /\
+  (forall c oc p a v, fok_apat C objcls true oc p a c = true -> lax_apat C M oc p a c v = matches_attr (sub C) M c v).
+Proof.
+  apply pat_mutind.
+  - intros t l IH oc p a v. rewrite fok_pat_eq. cbv zeta. intros H.
+    apply andb_true_iff in H. destruct H as [H Hal]. apply andb_true_iff in H. destruct H as [_ Hh].
+    destruct v as [z|o'|zs|xs]; try reflexivity.
+    + rewrite matches_attr_obj, matches_eq. change (lax_pat C M oc p a (Pat t l) (VO o')) with (lax_apat C M oc p a (PMatch (Pat t l)) (VO o')).
+      rewrite lax_match_obj, (IH _ _ o' Hal). reflexivity.
+    + rewrite matches_attr_coll. change (lax_pat C M oc p a (Pat t l) (VLO xs)) with (lax_apat C M oc p a (PMatch (Pat t l)) (VLO xs)).
+      rewrite lax_match_coll. cbv zeta.
+      assert (Hc : f_iter C oc a && negb (type_filter C oc a t) &&
+                   cnil (tr_alist C (dflt (f_type C oc a)) (nested_var C oc p a t (negb (is_anil l))) l) = false).
+      { destruct (f_iter C oc a); auto. destruct (type_filter C oc a t); auto. simpl in Hh. simpl.
+        destruct (tr_alist C _ _ l); auto; try discriminate. }
+      rewrite Hc. apply existsb_ext'. intros x. rewrite matches_eq, (IH _ _ x Hal). reflexivity.
+  - reflexivity.
+  - intros a c IHc rest IHr oc p o. rewrite fok_alist_cons. intros H.
+    apply andb_true_iff in H. destruct H as [H Hr]. apply andb_true_iff in H. destruct H as [_ Hc].
+    rewrite lax_alist_cons, matches_attrs_cons, (IHc _ _ _ _ Hc), (IHr _ _ _ Hr). reflexivity.
+  - reflexivity.
+  - intros q IH oc p a v H. apply IH. exact H.
+  - reflexivity.
+  - reflexivity.
+  - reflexivity.
+  - intros c IH oc p a v H. simpl in H. change (lax_apat C M oc p a (PSel c) v) with (lax_apat C M oc p a c v).
+    change (matches_attr (sub C) M (PSel c) v) with (matches_attr (sub C) M c v).
+    destruct c; try discriminate; apply IH; exact H.
+Qed.
+
+(* the Spec's answers are always among those of the relaxed reading (whatever the pattern) *)
+Lemma lax_weaker C M :
+  (forall q oc p a v, matches_attr (sub C) M (PMatch q) v = true -> lax_pat C M oc p a q v = true) /\
+  (forall l oc p o, matches_attrs (sub C) M l o = true -> lax_alist C M oc p l o = true) /\
+  (forall c oc p a v, matches_attr (sub C) M c v = true -> lax_apat C M oc p a c v = true).
+Proof.
+  apply pat_mutind.
+  - intros t l IH oc p a v. destruct v as [z|o'|zs|xs]; try (intros H; exact H).
+    + rewrite matches_attr_obj, matches_eq. change (lax_pat C M oc p a (Pat t l) (VO o')) with (lax_apat C M oc p a (PMatch (Pat t l)) (VO o')).
+      rewrite lax_match_obj. intros H. apply andb_true_iff in H. destruct H as [H1 H2]. rewrite H1, (IH _ _ _ H2). reflexivity.
+    + rewrite matches_attr_coll. change (lax_pat C M oc p a (Pat t l) (VLO xs)) with (lax_apat C M oc p a (PMatch (Pat t l)) (VLO xs)).
+      rewrite lax_match_coll. cbv zeta. destruct (_ && _ && cnil _); auto.
+      rewrite !existsb_exists. intros [x [Hx H]]. exists x. split; auto. rewrite matches_eq in H.
+      apply andb_true_iff in H. destruct H as [H1 H2]. rewrite H1, (IH _ _ _ H2). reflexivity.
+  - reflexivity.
+  - intros a c IHc rest IHr oc p o. rewrite lax_alist_cons, matches_attrs_cons. intros H.
+    apply andb_true_iff in H. destruct H as [H1 H2]. rewrite (IHc _ _ _ _ H1), (IHr _ _ _ H2). reflexivity.
+  - intros v oc p a w H. exact H.
+  - intros q IH oc p a v H. apply IH. exact H.
+  - intros v oc p a w H. exact H.
+  - intros v oc p a w H. exact H.
+  - intros v oc p a w H. exact H.
+  - intros c IH oc p a v H. apply (IH oc p a v). exact H.
+Qed.
+
+(* C11 on the relaxed fragment: the answer is exactly what the relaxed reading denotes *)
+Theorem match_run_lax C objcls M T l dom :
+  sub_trans C -> typed C objcls M -> F11lax C objcls T l = true ->
+  forall o, In o (run C M T l dom) <-> In o (lax_run C M T l dom).
+Proof.
+  intros Ht Hty HF o. unfold run, lax_run.
+  rewrite (run_conds_exact C objcls M (filter (fun o0 => sub C (otype M o0) T) dom) Ht Hty T l); auto.
+  - rewrite !filter_In, andb_true_iff. tauto.
+  - intros o0 Ho0. apply filter_In in Ho0. apply Ho0.
+Qed.
+
 (* C11: the answer of the pattern query is the set of domain elements of type T that the Spec denotes *)
 Theorem match_run_exact C objcls M T l dom :
   sub_trans C -> typed C objcls M -> F11 C objcls T l = true ->
   forall o, In o (run C M T l dom) <-> In o (spec_run (sub C) M T l dom).
 Proof.
-  intros Ht Hty HF o. unfold run, spec_run.
-  rewrite (run_conds_exact C objcls M (filter (fun o0 => sub C (otype M o0) T) dom) Ht Hty T l); auto.
-  - rewrite !filter_In, matches_eq. cbn [type_ok]. rewrite andb_true_iff. tauto.
-  - intros o0 Ho0. apply filter_In in Ho0. apply Ho0.
+  intros Ht Hty HF o.
+  rewrite (match_run_lax C objcls M T l dom Ht Hty (proj1 (proj2 (fok_mono C objcls)) _ _ _ HF)).
+  unfold lax_run, spec_run. rewrite !filter_In, matches_eq. cbn [type_ok].
+  rewrite (proj1 (proj2 (lax_strict C objcls M)) l T PRoot o HF). tauto.
 Qed.
+
+(* the Spec's answers are never lost, also where finding C11-e applies *)
+Theorem lax_superset C M T l dom o : In o (spec_run (sub C) M T l dom) -> In o (lax_run C M T l dom).
+Proof.
+  unfold lax_run, spec_run. rewrite !filter_In, matches_eq. cbn [type_ok]. intros [Hin H].
+  apply andb_true_iff in H. destruct H as [H1 H2]. split; auto.
+  rewrite H1, (proj1 (proj2 (lax_weaker C M)) l T PRoot o H2). reflexivity.
+Qed.
+
+(* where exactly the two readings part for the simplest vacuous keyword  a = match(T)()  on a collection attribute
+   (T absent, the declared type or wider): the code accepts every element, the Spec those whose collection has a member *)
+Theorem vacuous_keyword C objcls M oc p a t o d xs :
+  sub_trans C -> typed C objcls M -> sub C (otype M o) oc = true ->
+  f_type C oc a = Some d -> f_iter C oc a = true -> type_filter C oc a t = false -> attr (mw M) o a = VLO xs ->
+  lax_apat C M oc p a (PMatch (Pat t ANil)) (VLO xs) = true /\
+  matches_attr (sub C) M (PMatch (Pat t ANil)) (VLO xs) = negb (match xs with [] => true | _ => false end).
+Proof.
+  intros Ht Hty Hi Hd Hit Htf Hav. split.
+  - rewrite lax_match_coll. cbv zeta. rewrite Hit, Htf. reflexivity.
+  - rewrite matches_attr_coll. pose proof (Hty o oc a d Hi Hd) as Hx. rewrite Hit in Hx.
+    destruct Hx as [xs' [Hav' Hall]]. rewrite Hav in Hav'. injection Hav' as <-.
+    destruct xs as [|x xs]; [reflexivity|]. simpl. rewrite matches_eq.
+    rewrite (nofilter_type_ok C M Ht oc a t d x Htf Hd (Hall x (or_introl eq_refl))). reflexivity.
+Qed.
+
+(* ------------------------------------------------------------------ no exception inside the fragment *)
+Definition is_tvar (c : tcond) : bool := match c with TVar _ _ _ => true | _ => false end.
+Definition no_tvar (cs : list tcond) : bool := forallb (fun c => negb (is_tvar c)) cs.
+
+Lemma raises_no_tvar C M D cs : no_tvar cs = true -> forall e, raises_all C M D cs e = false.
+Proof.
+  induction cs as [|c cs IH]; simpl; intros H e; auto.
+  apply andb_true_iff in H. destruct H as [Hc Hcs].
+  assert (raises1 M D c e = false) by (destruct c; simpl in *; auto; discriminate).
+  rewrite H. simpl. induction (map fst _) as [|e1 l IHl]; simpl; auto. rewrite (IH Hcs e1), IHl. reflexivity.
+Qed.
+
+Lemma infer_no_tvar ai vi im un ex pa v : is_tvar (infer ai vi im un ex pa v) = false.
+Proof. unfold infer. destruct (infer_kind ai vi im un); reflexivity. Qed.
+
+Lemma tr_no_tvar C objcls :
+  (forall q oc p a, fok_pat C objcls false oc p a q = true -> no_tvar (tr_pat C oc p a q) = true) /\
+  (forall l oc p, fok_alist C objcls false oc p l = true -> no_tvar (tr_alist C oc p l) = true) /\
+  (forall c oc p a, fok_apat C objcls false oc p a c = true -> no_tvar (tr_apat C oc p a c) = true).
+Proof.
+  apply pat_mutind.
+  - intros t l IH oc p a. rewrite fok_pat_eq, tr_pat_eq. cbv zeta. intros H.
+    apply andb_true_iff in H. destruct H as [_ Hal]. unfold no_tvar. rewrite forallb_app.
+    fold (no_tvar (tr_alist C (dflt (f_type C oc a)) (nested_var C oc p a t (negb (is_anil l))) l)).
+    rewrite (IH _ _ Hal), andb_true_r. unfold nested_filter. destruct (type_filter C oc a t); reflexivity.
+  - reflexivity.
+  - intros a c IHc rest IHr oc p. rewrite fok_alist_cons, tr_alist_cons. intros H.
+    apply andb_true_iff in H. destruct H as [H Hr]. apply andb_true_iff in H. destruct H as [_ Hc].
+    unfold no_tvar. rewrite forallb_app. fold (no_tvar (tr_apat C oc p a c)). fold (no_tvar (tr_alist C oc p rest)).
+    rewrite (IHc _ _ _ Hc), (IHr _ _ Hr). reflexivity.
+  - intros v oc p a _. simpl. rewrite infer_no_tvar. reflexivity.
+  - intros q IH oc p a H. apply IH. exact H.
+  - intros v oc p a _. simpl. rewrite infer_no_tvar. reflexivity.
+  - intros v oc p a _. simpl. rewrite infer_no_tvar. reflexivity.
+  - intros v oc p a H. discriminate H.
+  - intros c IH oc p a H. simpl in H. change (tr_apat C oc p a (PSel c)) with (tr_apat C oc p a c).
+    destruct c; try discriminate; apply IH; exact H.
+Qed.
+
+(* inside the (relaxed) fragment the query raises nothing *)
+Theorem no_error C objcls M T l dom : F11lax C objcls T l = true -> run_raises C M T l dom = false.
+Proof. intros H. apply raises_no_tvar. apply (proj1 (proj2 (tr_no_tvar C objcls))). exact H. Qed.
